@@ -2,6 +2,7 @@ import Astits.Driver.C02
 import Astits.Driver.C06
 import Astits.Driver.DemuxProps
 import Astits.Driver.MuxProps
+import Astits.Driver.C09
 import Astits.Driver.C10
 import Astits.Driver.C11
 import Astits.Driver.C12
@@ -31,6 +32,7 @@ def main (args : List String) : IO UInt32 := do
       | "C04" => some (DriverMux.runC04 t)
       | "C05" => some (DriverMux.runC05 t)
       | "C17" => some (DriverMux.runC17 t)
+      | "C09" => some (DriverC09.run t)
       | "C10" => some (DriverC10.run t)
       | "C11" => some (DriverC11.run t)
       | "C12" => some (DriverC12.run t)
